@@ -229,7 +229,7 @@ class _Run:
         self.converted = 0
 
 
-def _run_history(case: dict[str, Any], fault: dict[str, Any] | None, stop_after_hit: bool) -> _Run:
+def _run_history(case: dict[str, Any], fault: dict[str, Any] | None, stop_after_hit: bool, loop: bool = False) -> _Run:
     from vgi_rpc.external import ClientExternalConfig, Compression, ServerExternalConfig
     from vgi_rpc.http import http_connect
 
@@ -237,8 +237,11 @@ def _run_history(case: dict[str, Any], fault: dict[str, Any] | None, stop_after_
     cfg = dict(CFGS[case["cfg"] % len(CFGS)])
     http = cfg["t"] == "http"
     run = _Run()
+    if loop:
+        run.storage = S.LoopStorage()
     storage = run.storage
     storage.fault = fault
+    fetch_kw = {"fetch_config": S.loopback_backend()["fetch_config"]} if loop else {}
     comp = None if case["comp"] == "none" else Compression(algorithm=case["comp"], level=1 if case["comp"] == "zstd" else 6)
     server_cfg = ServerExternalConfig(
         storage=storage,
@@ -246,8 +249,9 @@ def _run_history(case: dict[str, Any], fault: dict[str, Any] | None, stop_after_
         compression=comp,
         url_validator=None,
         retry_delay_seconds=0.0,
+        **fetch_kw,
     )
-    client_cfg = ClientExternalConfig(url_validator=None, retry_delay_seconds=0.0)
+    client_cfg = ClientExternalConfig(url_validator=None, retry_delay_seconds=0.0, **fetch_kw)
     cfg["client_kw"] = {"external_location": client_cfg}
     run_id = f"c30-{next(_counter)}"
     protocol, impl, _ = programs.build_service(spec, run_id)
@@ -279,7 +283,10 @@ def _run_history(case: dict[str, Any], fault: dict[str, Any] | None, stop_after_
                 for ci, call in enumerate(spec["calls"]):
                     storage.current_call = ci
                     run.obs.append(_observe(conn, spec, call, sink))
-                    if stop_after_hit and (run.hit is not None or run.obs[-1]["raised"] is not None and fault is not None and _is_local_failure(run.obs[-1]["raised"])):
+                    last = run.obs[-1]["raised"]
+                    if (stop_after_hit and run.hit is not None) or (last is not None and _is_local_failure(last)):
+                        # a call that died on the client side (failed resolution) leaves a socket connection
+                        # mid-response: nothing that follows on it is meaningful (and reading could block)
                         break
             finally:
                 if proxy_cm is not None:
@@ -375,7 +382,7 @@ def _check_objects(out: Outcome, case: dict[str, Any], run: _Run) -> None:
 
 def run_transparency(case: dict[str, Any]) -> Outcome:
     out = Outcome()
-    run = _run_history(case, None, stop_after_hit=False)
+    run = _run_history(case, None, stop_after_hit=False, loop=bool(case.get("loop")))
     _labels(out, case, run)
     n_srv = sum(1 for u in run.storage.uploads if u["origin"] == "server")
     out.nontrivial = (n_srv > 0 or run.converted > 0) and len(run.storage.fetches) > 0
@@ -390,7 +397,8 @@ def run_transparency(case: dict[str, Any]) -> Outcome:
 def run_corruption(case: dict[str, Any]) -> Outcome:
     out = Outcome()
     base = case["base"]
-    clean = _run_history(base, None, stop_after_hit=False)
+    loop = bool(case.get("loop"))
+    clean = _run_history(base, None, stop_after_hit=False, loop=loop)
     _labels(out, base, clean)
     _check_transparent(out, base, clean)
     fetched = sorted({f["n"] for f in clean.storage.fetches})
@@ -407,9 +415,12 @@ def run_corruption(case: dict[str, Any]) -> Outcome:
     cfg = CFGS[base["cfg"] % len(CFGS)]
     tag = f"{kind}/{origin}/{cfg['t']}"
     out.label(f"fault={kind}", f"origin={origin}")
-    run = _run_history(base, fault, stop_after_hit=True)
+    run = _run_history(base, fault, stop_after_hit=True, loop=loop)
     if run.hit is None:
         out.label("fault_not_reached")
+        return out
+    if run.storage.noop_fault:
+        out.label("stored_bytes_changed_payload_intact")
         return out
     out.nontrivial = True
     ci = run.hit["call"]
@@ -565,3 +576,13 @@ def main(chk: Check) -> None:
     chk.explore("transparency", _transparency_cases(), run_transparency, quick=210, thorough=2400)
     chk.explore("corruption", st.fixed_dictionaries({"base": _corruptible, "fault": _fault}), run_corruption, quick=270, thorough=4000)
     chk.explore("resolver", resolver_cases, run_resolver, quick=600, thorough=16000)
+    if not chk.quick or chk.replay is not None:
+        # the repo's fake_storage service on 127.0.0.1 and the real fetch_url / decompression path
+        chk.explore("loopback", _transparency_cases().map(lambda c: {**c, "upload": False, "loop": True}), run_transparency, quick=1, thorough=800)
+        chk.explore(
+            "loopback_corruption",
+            st.fixed_dictionaries({"base": _corruptible.map(lambda c: {**c, "upload": False}), "fault": _fault, "loop": st.just(True)}),
+            run_corruption,
+            quick=1,
+            thorough=1600,
+        )
